@@ -79,6 +79,10 @@ pub(crate) mod verif_c05;
 #[path = "../../verif/c13_manager.rs"]
 pub(crate) mod verif_c13;
 
+#[cfg(litep2p_verif)]
+#[path = "../../verif/node.rs"]
+pub(crate) mod verif_node;
+
 // TODO: https://github.com/paritytech/litep2p/issues/268 Periodically clean up idle peers.
 // TODO: https://github.com/paritytech/litep2p/issues/344 add lots of documentation
 
